@@ -62,6 +62,8 @@ def concretize(v, model, maxlen=4096):
         return ("__iter__", data, concretize(v.pos, model))
     if isinstance(v, HFile):
         return ("__file__", concretize(v.seq, model), concretize(v.pos, model))
+    if type(v).__name__ == "ConstFn":
+        return ("__constfn__", concretize(v.value, model))
     if isinstance(v, SObj):
         return ("__obj__", dict((k, concretize(x, model)) for k, x in v.__dict__["_f"].items()))
     if isinstance(v, HSymList):
@@ -127,6 +129,9 @@ def nativize(v):
         f = io.BytesIO(v[1])
         f.seek(v[2])
         return f
+    if isinstance(v, tuple) and len(v) == 2 and v[0] == "__constfn__":
+        rows = [tuple(r) for r in v[1]]
+        return lambda: iter(list(rows))
     if isinstance(v, tuple):
         return tuple(nativize(x) for x in v)
     if isinstance(v, list):
@@ -140,6 +145,8 @@ def contract_view(v):
         return _Rec({"data": v[1], "pos": v[2], "seq": v[1]})
     if isinstance(v, tuple) and len(v) == 2 and v[0] == "__obj__":
         return _Rec(dict((k, contract_view(x)) for k, x in v[1].items()))
+    if isinstance(v, tuple) and len(v) == 2 and v[0] == "__constfn__":
+        return [tuple(r) for r in v[1]]
     return v
 
 
